@@ -15,5 +15,5 @@ esac
 cd /verif
 VERIF_REPO_DIR="$d" ./check "$@"
 rc=$?
-rm -rf "$d" /verif/.build/mod-_tmp_verif_mut_*
+rm -rf "$d" "/verif/.build/mod-$(echo "$d" | sed 's/[^A-Za-z0-9]/_/g')"
 exit $rc
